@@ -197,7 +197,9 @@ ENTRY = {
     'func.func_diff_matrix_apply': [dict(A='tt', D='f[n,n]', kind=L('sin'))],
     'func.func_get': [dict(X='f[m,d]', A='tt', a='num', b='num'),
                       dict(X='f[d]', A='tt', a='fvec', b='fvec'),
-                      dict(X='f[m,d]', A='tt')],
+                      dict(X='f[m,d]', A='tt'),
+                      dict(X='f[m,d]', A='tt', z='int:z'),
+                      dict(X='f[d]', A='tt', z='int:z')],
     'func.func_gets': [dict(A='tt'), dict(A='tt', m='int:mnew'),
                        dict(A='tt', kind=L('sin'))],
     'func.func_int': [dict(Y='tt'), dict(Y='tt', kind=L('sin'))],
@@ -290,7 +292,8 @@ ENTRY = {
                            i_non_zero='i[d]')],
     'tensors.delta': [dict(n='shape', i='i[d]', v='num:v')],
     'tensors.poly': [dict(n='shape'),
-                     dict(n='shape', shift='fvec', power=L(3), scale='num:s')],
+                     dict(n='shape', shift='fvec', power=L(3), scale='num:s'),
+                     dict(n='shape', shift='num:sh')],
     'tensors.rand': [dict(n='shape', r='int:r', seed='seed'),
                      dict(n='shape', r='ranks', seed='seed')],
     'tensors.rand_custom': [dict(n='shape', r='int:r', f='cb')],
